@@ -269,12 +269,31 @@ Example C03_dataplane_failure_nonvacuous :
   free (fst (step v st EvSbOk)) = 1 /\ map snd (snd (step v st EvSbOk)) = [OProg] /\
   (* a failure report with nothing queued changes nothing *)
   step v (fst (step v st EvSbOk)) EvSbFail = (fst (step v st EvSbOk), []) /\
-  (* a failure report for a session PADT has already torn down: ignored; /repo HEAD ([vsf] = false, known finding
-     pppoe-vpp-failure-after-teardown) runs the teardown a second time *)
+  (* a failure report for a session PADT has already torn down: ignored; the code before 7b3d79c ([vsf] = false, fixed
+     finding pppoe-vpp-failure-after-teardown) ran the teardown a second time *)
   snd (step v (fst (step v st (EvPadt 0))) EvSbFail) = [] /\
-  map snd (snd (step (mkV5 true false true true false) (fst (step v st (EvPadt 0))) EvSbFail)) = [OLifeR; OSbDel; OLifeR].
+  map snd (snd (step (pre_7b3d79c false) (fst (step v st (EvPadt 0))) EvSbFail)) = [OLifeR; OSbDel; OLifeR].
 Proof. intros v evs st. repeat match goal with |- _ /\ _ => split end; timeout 20 (vm_compute; reflexivity). Qed.
 Print Assumptions C03_dataplane_failure_nonvacuous.
+
+(* Trying to prove "on the repaired code a torn-down session owns nothing ([leaks] = false)" refuted it for /repo HEAD
+   ([vnm] = false, known finding pppoe-dhcpv6-rereserve-drops-pool-name): subscriber 1 solicits while the only IA_NA
+   address is taken (a prefix is resolved and leased with its pool name), the address comes back, it solicits again: the
+   address is resolved, the provider reserves both again and the prefix lease forgets its pool; PADT before any REPLY then
+   returns the address but not the prefix.  With [vnm] (fixes/C03_dhcp6_rereserve_keeps_pool_name.patch) it returns both.
+   The general theorem is still open: it needs the invariant "accepted and live => still Network/Open" in GateInv. *)
+Definition ev_relate :=
+  let up i k := [EvOpen i; EvFrame i (FrLcp (FCreq QGood)); EvFrame i (FrLcp (FCack true)); EvFrame i FrChapResp; EvAAA k AAcc;
+                 EvFrame i (FrIp6cp (FCreq QGood)); EvFrame i (FrIp6cp (FCack true))] in
+  up 0 1 ++ up 1 2 ++ [EvFrame 1 FrDh6Sol; EvPadt 0; EvFrame 1 FrDh6Sol; EvPadt 1].
+Example C03_teardown_leak_refuted :
+  let head := mkVr true false true true true false in
+  free6 (fst (run head (init3 2 1 16) ev_relate)) = (1, 15) /\
+  option_map leaks (nth_error (sl (fst (run head (init3 2 1 16) ev_relate))) 1) = Some true /\
+  free6 (fst (run (mkV true false) (init3 2 1 16) ev_relate)) = (1, 16) /\
+  option_map leaks (nth_error (sl (fst (run (mkV true false) (init3 2 1 16) ev_relate))) 1) = Some false.
+Proof. intros head. repeat match goal with |- _ /\ _ => split end; timeout 20 (vm_compute; reflexivity). Qed.
+Print Assumptions C03_teardown_leak_refuted.
 
 (* C03_renegotiation_reauth.  Split any history at a point where slot i's monitor holds no accept (mn1; in
    particular right after LCP left Opened, [C03_lcp_down_clears_accept]).  If in the continuation no allowed AAA
